@@ -239,12 +239,27 @@ fn run_case(cx: &CaseCtx, rep: &mut Report) {
 		return;
 	}
 	// how the root is spelled (see below); spelling 4 uses the documented trailing form `path[/prefix]`
-	let spelling = if tar { 0 } else { [0u64, 4, 1, 2, 3][((cx.case / 4) % 5) as usize] };
+	let spelling = if tar { 0 } else { [0u64, 4, 1, 5, 2, 3][((cx.case / 4) % 6) as usize] };
 	let prefixed = prefixed || spelling == 4;
 	let prefix = if prefixed { "/assets" } else { "" };
 	// how the root is spelled on the command line: canonical absolute path; relative to the working directory with
 	// a parent segment in it; or through a symlink that lies deeper than its target
 	let root_arg = match spelling {
+		5 => {
+			// a parent segment behind a symbolic link: `jump` points two levels down, so `jump/../root` is the real
+			// root for the operating system — and `<dir>/root` (a decoy with canaries) for whoever resolves `..` by
+			// deleting the segment in front of it
+			#[cfg(unix)]
+			let _ = std::os::unix::fs::symlink(dir.join("outer").join("releases"), dir.join("jump"));
+			let decoy = dir.join("root");
+			let _ = std::fs::create_dir_all(decoy.join("sub"));
+			for (name, i) in [("index.html", 0usize), ("a.txt", 1), ("secret.txt", 2), ("sub/b.txt", 3)] {
+				if let Some(c) = layout.canaries.get(i) {
+					let _ = std::fs::write(decoy.join(name), format!("decoy copy of {c}"));
+				}
+			}
+			"jump/../root".to_string()
+		}
 		4 => {
 			// a bracket earlier in the path (a folder named `[v1]`), the mount point behind the path
 			#[cfg(unix)]
@@ -345,6 +360,16 @@ fn run_case(cx: &CaseCtx, rep: &mut Report) {
 		push(s.clone(), "/", true, false, &mut targets);
 		if prefixed && rng.chance(0.1) {
 			push(s, "/", false, false, &mut targets);
+		}
+	}
+	// absolute paths of *directories* outside the root that hold an index.html (no trailing slash, `/.`, slash)
+	for d in [format!("{}/outer", dir.display()), format!("{}/outer/releases", dir.display())] {
+		for tail in ["", "/.", "/"] {
+			let segs: Vec<String> = format!("{d}{tail}").split('/').filter(|c| !c.is_empty()).map(String::from).collect();
+			for lead in ["//", "///", "/sub///"] {
+				push(segs.clone(), lead, true, true, &mut targets);
+				push(segs.clone(), lead, false, true, &mut targets);
+			}
 		}
 	}
 	// absolute components: //abs, ///abs, prefix//abs
